@@ -361,7 +361,12 @@ class Oracle:
         tl = [float(Fr(grid["T_MIN"]) + Fr(grid["DT"]) * k) for k in range(grid["NT"])]
         for name, ks in expected.items():
             k = ks[-1]
-            rows, cols, vals = parse_table(files[name])
+            try:
+                rows, cols, vals = parse_table(files[name])
+            except Exception as e:
+                ctx.failure("unreadable-%s-%s" % (kw, base_name), "file %r cannot be re-read as a table (%s: %s)"
+                            % (name, type(e).__name__, e), input=inp, observed=files[name][:300].decode("ascii", "replace"))
+                return
             a = mem[prop][k] if is_ij else mem[prop]
             if not lab_eq(rows, tl):
                 ctx.failure("rows-%s-%s" % (kw, base_name), "row labels are not T_MIN + k*DT, k < NT", input=inp,
@@ -452,7 +457,7 @@ def run(ctx):
     # 2. re-prove
     if gen_ok:
         shutil.copy(PROPS / "Prop_C15.v", rd / "Prop_C15.v")
-        ctx.prove(rd / "Prop_C15.v", "Prop_C15.v (10 theorems re-proved against Gen_rules.v)", "theorem-file",
+        ctx.prove(rd / "Prop_C15.v", "Prop_C15.v (11 theorems re-proved against Gen_rules.v)", "theorem-file",
                   extra_Q=[(rd, "CijGen")])
 
     # 3. run the implementation
